@@ -44,6 +44,8 @@ def loop_vars(fnir):
                 walk(s[2])
             elif s[0] == "with2":
                 walk(s[3])
+            elif s[0] == "withn":
+                walk(s[2])
             elif s[0] == "pick":
                 for arm in s[1]:
                     walk(arm)
